@@ -48,11 +48,22 @@ Section Grid.
   Definition for_side (left_side : bool) (g : list T * list T) : list T * list T :=
     if left_side then (rev (fst g), rev (snd g)) else g.
 
-  (* lines 162-168: allocation of the N control points to the sections, from Python's round() of N*(d_{i+1}-d_i) *)
+  (* lines 162-171: allocation of the N control points to the sections, from Python's round() of N*(d_{i+1}-d_i); the excess is taken
+     from the root section when it has that many, otherwise one at a time from the (first) longest section *)
+  Fixpoint dec_first (m : Z) (l : list Z) : list Z :=
+    match l with
+    | [] => []
+    | x :: r => if (x =? m)%Z then (x - 1)%Z :: r else x :: dec_first m r
+    end.
+  Definition zmax_list (l : list Z) : Z := fold_right Z.max (hd 0%Z l) l.
+  Fixpoint take_from_largest (k : nat) (l : list Z) : list Z :=
+    match k with O => l | S k' => take_from_largest k' (dec_first (zmax_list l) l) end.
   Definition alloc (Ncp : Z) (rounded : list Z) : list Z :=
     match rounded with
     | [] => []
-    | r0 :: rest => (r0 - (fold_left Z.add rounded 0%Z - Ncp))%Z :: rest
+    | r0 :: rest =>
+        let diff := (fold_left Z.add rounded 0%Z - Ncp)%Z in
+        if (0 <=? r0 - diff)%Z then (r0 - diff)%Z :: rest else take_from_largest (Z.to_nat diff) rounded
     end.
 
   (* lines 1056-1059, 691: mean chord of each section and its planform area *)
